@@ -24,6 +24,7 @@ import time
 from unittest import mock
 
 from common import Coverage, coq_eval, rng, violation
+from ref import pairsetup_ref as PS
 from ref import srp_ref as R
 
 USER = "Pair-Setup"
@@ -93,8 +94,10 @@ def impl_run(code, a, salt, B_b, Ms):
         return dict(status=exc_class(e), A_b=b"", M1=b"", K=b"", accepts=[])
 
 
-def impl_pair_setup(code, a, salt, B_b, M2):
-    """Drive the real pair-setup M3/M4 step: returns (public key item, proof item, outcome of feeding M4 with M2)."""
+def impl_pair_setup(code, a, salt, B_b, M2, ref_K=None):
+    """Drive the real pair-setup generator: M3 items, outcome of feeding M4 with M2 and - when the independent accessory's
+    64-byte session key ref_K is given and M4 was accepted - M5 opened by that accessory and its M6 fed back.
+    -> (public key item, proof item, outcome, later) with later = None or dict(m5_ok, m5_reason, m6)."""
     import aiohomekit.crypto.srp as srp
     from aiohomekit.exceptions import AuthenticationError
     from aiohomekit.protocol import perform_pair_setup_part2
@@ -104,8 +107,9 @@ def impl_pair_setup(code, a, salt, B_b, M2):
         req, _expected = next(gen)
     d = dict(req)
     pub, proof = bytes(d[TLV.kTLVType_PublicKey]), bytes(d[TLV.kTLVType_Proof])
+    later, m5 = None, None
     try:
-        gen.send([(TLV.kTLVType_State, TLV.M4), (TLV.kTLVType_Proof, bytearray(M2))])
+        m5 = gen.send([(TLV.kTLVType_State, TLV.M4), (TLV.kTLVType_Proof, bytearray(M2))])
         outcome = "continues"
     except AuthenticationError:
         outcome = "auth-error"
@@ -113,9 +117,27 @@ def impl_pair_setup(code, a, salt, B_b, M2):
         outcome = "continues"
     except Exception as e:  # noqa
         outcome = "other:" + type(e).__name__
+    try:
+        if ref_K is not None and m5 is not None:
+            enc = dict(m5[0]).get(TLV.kTLVType_EncryptedData)
+            if enc is None:
+                later = dict(m5_ok=False, m5_reason="M5 carries no encrypted data", m6="not-run")
+            else:
+                ok, reason, _dev_id, _dev_ltpk = PS.open_m5(ref_K, bytes(enc))
+                later = dict(m5_ok=ok, m5_reason=reason, m6="not-run")
+                m6_enc, acc_ltpk = PS.build_m6(ref_K)
+                try:
+                    gen.send([(TLV.kTLVType_State, TLV.M6), (TLV.kTLVType_EncryptedData, bytearray(m6_enc))])
+                    later["m6"] = "no-result"
+                except StopIteration as fin:
+                    r = fin.value
+                    later["m6"] = "completed" if isinstance(r, dict) and bytes.fromhex(r.get("AccessoryLTPK", "")) == acc_ltpk \
+                        else "completed-with-wrong-record"
+                except Exception as e:  # noqa
+                    later["m6"] = "raised:" + type(e).__name__
     finally:
         gen.close()
-    return pub, proof, outcome
+    return pub, proof, outcome, later
 
 
 # ---------------------------------------------------------------- fast search helper (builtin pow; search only)
@@ -233,15 +255,18 @@ def impl_phase(case):
     Ms = [c[1] for c in cands]
     impl = impl_run(code, a, salt, B_b, Ms) if first["status"] == "ok" else first
     P = dict(case=case, code=code, scode=scode, salt=salt, a=a, b=b, acc=acc, B_b=B_b, conformant=conformant,
-             impl=impl, verdict=verdict, M2=M2, cands=cands, Ms=Ms, pair_setup=None, pair_setup_error=None, want=None)
+             impl=impl, verdict=verdict, M2=M2, cands=cands, Ms=Ms, pair_setup=None, pair_setup_later=None, pair_setup_error=None,
+             want=None)
     if conformant and impl["status"] == "ok":
         P["want"] = R.client_values(code.encode(), salt, a, B_b)
         try:      # byte-level use inside pair-setup (M3 items, M4 verification)
-            pub, proof, outcome = impl_pair_setup(code, a, salt, B_b, M2)
+            ref_K = verdict["K"] if (code == scode and verdict["ok"] and impl["K"] == verdict["K"]) else None
+            pub, proof, outcome, later = impl_pair_setup(code, a, salt, B_b, M2, ref_K=ref_K)
             bad = bytearray(M2)
             bad[-1] ^= 1
-            _p, _q, outcome_bad = impl_pair_setup(code, a, salt, B_b, bytes(bad))
+            _p, _q, outcome_bad, _l = impl_pair_setup(code, a, salt, B_b, bytes(bad))
             P["pair_setup"] = (pub, proof, outcome, outcome_bad)
+            P["pair_setup_later"] = later
         except Exception as e:  # noqa
             P["pair_setup_error"] = f"{type(e).__name__}: {e}"
     return P
@@ -296,6 +321,16 @@ def oracle_failures(P):
         exp_out = "continues" if impl["K"] == verdict["K"] else "auth-error"
         if outcome != exp_out or outcome_bad != "auth-error":
             out.append(("pair-setup:m4-verification", f"pair-setup M4 handling: correct proof -> {outcome}, corrupted -> {outcome_bad}", {}))
+    later = P.get("pair_setup_later")
+    if later is not None:
+        # SrpClient's K equals the accessory's 64-byte K here; pair-setup must key M5/M6 with exactly those bytes
+        k0 = " (K starts with 0x00)" if impl["K"][:1] == b"\x00" else ""
+        if not later["m5_ok"]:
+            out.append(("pair-setup:m5-session-key", f"a conformant accessory holding the same 64-byte session key cannot accept the "
+                        f"controller's M5{k0}: {later['m5_reason']} kind={kind}", dict(accessory_K=verdict["K"].hex())))
+        elif later["m6"] != "completed":
+            out.append(("pair-setup:m6-session-key", f"the controller does not accept the conformant accessory's M6 keyed by the same "
+                        f"64-byte session key{k0}: {later['m6']} kind={kind}", dict(accessory_K=verdict["K"].hex())))
     return out
 
 
@@ -365,7 +400,8 @@ def judge(ctx, P, mres, seq=None):
     if P["pair_setup_error"]:
         V("pair-setup:harness", f"could not drive perform_pair_setup_part2: {P['pair_setup_error']}", False)
     if P["pair_setup"] is not None:
-        res["pair_setup"] = [P["pair_setup"][2], P["pair_setup"][3]]
+        res["pair_setup"] = [P["pair_setup"][2], P["pair_setup"][3]] + ([("m5-opened" if P["pair_setup_later"]["m5_ok"] else "m5-refused"),
+                                                                       "m6-" + P["pair_setup_later"]["m6"]] if P.get("pair_setup_later") else [])
     # ---- correspondence model <-> implementation (the model is history-free)
     same = (impl["status"] == model["status"] and impl["A_b"] == model["A_b"] and impl["M1"] == model["M1"]
             and impl["K"] == model["K"] and impl["accepts"] == model["accepts"])
